@@ -1056,6 +1056,88 @@ async def c18_traceback_bounded(w):
             "reproduced": bool(failures)}
 
 
+async def c03_binding(w):
+    """One call shape natively: the real pyscript function against CPython (same source)."""
+    await boot_full()
+    sig = w["sig"]
+    import re
+    sig_py = re.sub(r"(\w+)_default", r"'default:\1'", sig)
+    args = ", ".join([f"'pos{i}'" for i in range(w["npos"])] + [f"{k}='kw:{k}'" for k in w["kws"]])
+    src = f"def f({sig_py}):\n    return dict(locals())\nerr = None\nres = None\ntry:\n    res = f({args})\nexcept TypeError as e:\n    err = 'TypeError'\n"
+    g = {}
+    exec(compile(src, "<b>", "exec", dont_inherit=True), g)
+    cpy = (g["err"], g["res"])
+    gctx, actx, exc = await run_source("file.c03b", src)
+    pys = (gctx.global_sym_table.get("err"), gctx.global_sym_table.get("res"))
+    await shutdown()
+    return {"reproduced": cpy != pys, "observed": {"source": src, "cpython": cpy, "pyscript": pys, "load_exception": repr(exc)},
+            "expected": "same bound arguments or TypeError as CPython"}
+
+
+async def c03_lookup_order(w):
+    """Inside a function a user-defined GLOBAL must shadow pyscript's builtin-level functions (print)."""
+    await boot_full()
+    src = ("out = []\ndef print(*a):\n    out.append(a)\n\ndef f():\n    print('hi')\n    return len(out)\n\nr = f()\n"
+           "def g():\n    v = print\n    print = 3\n    return v\ne2 = None\ntry:\n    g()\nexcept UnboundLocalError:\n    e2 = 'UnboundLocalError'\nexcept Exception as e:\n    e2 = type(e).__name__\n")
+    g = {}
+    exec(compile(src, "<l>", "exec", dont_inherit=True), g)
+    cpy = (g["r"], g["e2"])
+    gctx, actx, exc = await run_source("file.c03l", src)
+    pys = (gctx.global_sym_table.get("r"), gctx.global_sym_table.get("e2"))
+    await shutdown()
+    return {"reproduced": cpy != pys, "observed": {"cpython (r, error)": cpy, "pyscript (r, error)": pys, "load_exception": repr(exc)},
+            "expected": "a global named print defined by the script is the one called inside its functions"}
+
+
+async def c03_definition_order(w):
+    return await c01_template(w)
+
+
+PROGRAMS_C03 = [
+    ("closure-counter", "def mk():\n    n = 0\n    def inc():\n        nonlocal n\n        n += 1\n        return n\n    return inc\nc = mk()\nr = [c(), c(), mk()()]\n"),
+    ("closures-in-loop", "fs = []\nfor i in range(3):\n    def f(j=i):\n        return (i, j)\n    fs.append(f)\nr = [f() for f in fs]\n"),
+    ("global-decl", "g = 1\ndef f():\n    global g\n    g = g + 1\n    return g\nr = [f(), f(), g]\n"),
+    ("recursion", "def fact(n):\n    return 1 if n <= 1 else n * fact(n - 1)\nr = [fact(k) for k in range(6)]\n"),
+    ("user-decorator", "log = []\ndef deco(tag):\n    log.append('eval ' + tag)\n    def w(fn):\n        log.append('apply ' + tag)\n        def inner(*a, **k):\n            return (tag, fn(*a, **k))\n        return inner\n    return w\n@deco('a')\n@deco('b')\ndef f(x):\n    return x + 1\nr = [f(1), log]\n"),
+    ("defaults-once", "calls = []\ndef d():\n    calls.append(1)\n    return []\ndef f(x=d()):\n    x.append(1)\n    return len(x)\nr = [f(), f(), len(calls)]\n"),
+    ("class-methods", "class K:\n    z = 10\n    def __init__(self, v):\n        self.v = v\n    def add(self, w):\n        return self.v + w + self.z\nk = K(1)\nr = [k.add(2), K(5).add(1), K.z]\n"),
+    ("class-closure", "def mk(base):\n    class C:\n        def get(self):\n            return base * 2\n    return C\nr = mk(21)().get()\n"),
+    ("unbound-local", "x = 1\ndef f():\n    try:\n        y = x\n    except UnboundLocalError:\n        return 'unbound'\n    x = 2\n    return y\nr = f()\n"),
+    ("comprehension-scope", "x = 'outer'\ndef f():\n    return [x for _ in range(2)]\ndef g():\n    ys = [x for x in range(3)]\n    return ys\nr = [f(), g(), x]\n"),
+    ("comprehension-does-not-make-local", "x = 1\ndef g():\n    ys = [x for x in range(2)]\n    return x\nr = None\ntry:\n    r = g()\nexcept Exception as e:\n    r = type(e).__name__\n"),
+    ("kwonly-and-star", "def f(a, *rest, k=3, **kw):\n    return (a, rest, k, sorted(kw))\nr = [f(1), f(1, 2, 3, k=4, z=5), f(*[1, 2], **{'k': 9})]\n"),
+    ("nested-def-in-else", "def outer(flag):\n    v = 7\n    if flag:\n        pass\n    else:\n        def inner():\n            return v\n        return inner()\n    return None\nr = outer(False)\n"),
+    ("global-in-callee-that-raises", "helper = 'global'\ndef bad():\n    global helper\n    raise ValueError('x')\ndef caller():\n    helper = 'local'\n    try:\n        bad()\n    except ValueError:\n        pass\n    return helper\nr = [caller(), helper]\n"),
+    ("lambda", "add = lambda a, b=2: a + b\nr = [add(1), add(1, 1), (lambda: 5)()]\n"),
+    ("pyscript-compile", "@pyscript_compile\ndef native(a, b=1):\n    return [a + b for _ in range(2)]\nr = native(2)\n"),
+    ("method-bound-later", "class A:\n    def m(self):\n        return 'm'\nf = A().m\nr = f()\n"),
+    ("typeerror-missing", "def f(a, b):\n    return a\nr = None\ntry:\n    f(1)\nexcept TypeError:\n    r = 'TypeError'\n"),
+]
+
+
+async def c03_programs_bounded(w):
+    """Bounded stand-in for closures / classes / decorators / recursion / scoping: fixed multi-function programs run
+    by the real interpreter and by CPython; the value of `r` must agree."""
+    await boot_full()
+    failures = []
+    for label, src in PROGRAMS_C03:
+        g = {"pyscript_compile": lambda f: f}
+        err = None
+        try:
+            exec(compile(src, "<p>", "exec", dont_inherit=True), g)
+            cpy = repr(g.get("r"))
+        except Exception as e:  # noqa
+            cpy = "exception:" + type(e).__name__
+        gctx, actx, exc = await run_source("file.prog_" + label.replace("-", "_"), src)
+        pys = repr(gctx.global_sym_table.get("r")) if exc is None else "exception:" + type(exc).__name__
+        if cpy != pys:
+            failures.append({"signature": "program:" + label, "source": src, "cpython": cpy, "pyscript": pys})
+    await shutdown()
+    return {"unit": "closures / classes / decorators / scoping", "method": "fixed multi-function programs vs CPython",
+            "bound": f"{len(PROGRAMS_C03)} programs (nesting depth <= 3)", "cases": len(PROGRAMS_C03), "failures": failures,
+            "reproduced": bool(failures)}
+
+
 SCENARIOS = {k: v for k, v in list(globals().items()) if asyncio.iscoroutinefunction(v) and k[0] == "c"}
 
 if __name__ == "__main__":
